@@ -29,6 +29,8 @@ class Cache:
     group_by: set[UUID]
     is_filtered: bool
     is_summarized: bool  # an ungrouped `summarize` leaves `group_by` empty
+    # columns of the current SELECT whose definition is not null for null inputs (see `is_null_strict`)
+    null_absorbing: set[UUID]
 
     backend: type[TableImpl]
 
@@ -90,6 +92,7 @@ class Cache:
             group_by=set(),
             is_filtered=False,
             is_summarized=False,
+            null_absorbing=set(),
             backend=type(node),
         )
 
@@ -112,6 +115,7 @@ class Cache:
                     if uid in node.uuid_map
                 }
                 res.partition_by = [node.uuid_map[uid] for uid in self.partition_by if uid in node.uuid_map]
+                res.null_absorbing = {node.uuid_map[uid] for uid in self.null_absorbing if uid in node.uuid_map}
                 res.derived_from = set()
 
         elif isinstance(node, verbs.Select):
@@ -130,6 +134,11 @@ class Cache:
             res.cols = self.cols | {
                 uid: Col(name, node, uid, val.dtype(), val.ftype(agg_is_window=True))
                 for name, val, uid in zip(node.names, node.values, node.uuids, strict=True)
+            }
+            res.null_absorbing = self.null_absorbing | {
+                uid
+                for val, uid in zip(node.values, node.uuids, strict=True)
+                if not is_null_strict(val, self.null_absorbing)
             }
             # overwritten columns are dropped and the new column is appended at the end (as the backends do)
             new_names = set(node.names)
@@ -181,6 +190,7 @@ class Cache:
             res.limit = 0
             res.group_by = set()
             res.is_summarized = False
+            res.null_absorbing = self.null_absorbing | right_cache.null_absorbing
             # the predicates of the right side of an inner join end up in the WHERE clause, too
             res.is_filtered = self.is_filtered or (node.how == "inner" and right_cache.is_filtered)
 
@@ -211,6 +221,7 @@ class Cache:
             res.limit = 0
             res.group_by = set()
             res.is_summarized = False
+            res.null_absorbing = set()
 
         elif isinstance(node, verbs.SubqueryMarker):
             res.cols = {
@@ -227,6 +238,7 @@ class Cache:
             res.group_by = set()
             res.is_filtered = False
             res.is_summarized = False
+            res.null_absorbing = set()
 
         assert len(res.name_to_uuid) == len(res.uuid_to_name)
         res.derived_from = res.derived_from | {node}
@@ -307,9 +319,7 @@ class Cache:
             # The select list is evaluated after the join. On the null-padded side of a left / full join this is only
             # correct for columns that are null whenever their inputs are (`fill_null`, `is_null`, `coalesce`, case
             # expressions, ... give a non-null value for a padded row).
-            if (node.how == "full" or (node.child not in self.derived_from and node.how == "left")) and not all(
-                is_null_strict(self.cols[uid]) for uid in self.uuid_to_name.keys()
-            ):
+            if (node.how == "full" or (node.child not in self.derived_from and node.how == "left")) and not self.null_absorbing.isdisjoint(self.uuid_to_name.keys()):
                 return "left / full join with a table containing a column that is not null for null inputs"
 
             if any(self.cols[uid].ftype() == Ftype.WINDOW for uid in self.uuid_to_name.keys()):
@@ -356,16 +366,14 @@ NOT_NULL_PROPAGATING = (
 )
 
 
-def is_null_strict(expr: ColExpr) -> bool:
+def is_null_strict(expr: ColExpr, null_absorbing: set[UUID]) -> bool:
     """Whether `expr` is null in every row in which all columns it reads are null."""
     if isinstance(expr, Col):
-        if isinstance(expr._ast, verbs.Mutate) and expr._uuid in expr._ast.uuids:
-            return is_null_strict(expr._ast.values[expr._ast.uuids.index(expr._uuid)])
-        return True
+        return expr._uuid not in null_absorbing
     if isinstance(expr, Cast):
-        return is_null_strict(expr.val)
+        return is_null_strict(expr.val, null_absorbing)
     if isinstance(expr, ColFn):
-        return expr.op not in NOT_NULL_PROPAGATING and any(is_null_strict(arg) for arg in expr.args)
+        return expr.op not in NOT_NULL_PROPAGATING and any(is_null_strict(arg, null_absorbing) for arg in expr.args)
     return False
 
 
